@@ -1,7 +1,33 @@
-(* Entry point of the extracted model for property C15: run_C15 case = observation. *)
+(* Entry point of the extracted model for property C15 (integer model of dvb.go only; the float
+   model is tied to it by the theorems of Proofs/DvbProofs.v and is not extracted).
+   cases: (1 bytes)   parseDVBTime             -> res (Unix seconds)
+          (2 bytes)   parseDVBDurationSeconds  -> res (nanoseconds)
+          (3 bytes)   parseDVBDurationMinutes  -> res (nanoseconds)
+          (4 b)       parseDVBDurationByte     -> n
+          (5 unix)    writeDVBTime of time.Unix(unix,0).UTC()  -> (bytes n)
+          (6 ns)      writeDVBDurationSeconds  -> (bytes n)
+          (7 ns)      writeDVBDurationMinutes  -> (bytes n)
+          (8 n)       dvbDurationByteRepresentation -> byte
+          (9 unix)    write, then parse what was written -> (bytes res) *)
 From Coq Require Import ZArith List.
-Require Import Base.Tok Base.Iter Extract.RunBase.
+Require Import Base.Tok Base.Iter Base.Wr Gen.Preds Model.Dvb Extract.RunBase.
 Import ListNotations.
 Open Scope Z_scope.
 
-Definition run_C15 (t : tok) : tok := TL [].
+Definition tok_written (its : list witem) : tok :=
+  let bs := bytes_of_items its in TL [TB bs; TI (Z.of_nat (length bs))].
+
+Definition run_C15 (t : tok) : tok :=
+  match tI (tnth 0 t) with
+  | 1 => tok_of_res TI (run_iter parse_dvb_time (tB (tnth 1 t)))
+  | 2 => tok_of_res TI (run_iter parse_dvb_duration_seconds (tB (tnth 1 t)))
+  | 3 => tok_of_res TI (run_iter parse_dvb_duration_minutes (tB (tnth 1 t)))
+  | 4 => TI (parse_dvb_duration_byte (tI (tnth 1 t)))
+  | 5 => tok_written (enc_dvb_time (tI (tnth 1 t)))
+  | 6 => tok_written (enc_dvb_duration_seconds (tI (tnth 1 t)))
+  | 7 => tok_written (enc_dvb_duration_minutes (tI (tnth 1 t)))
+  | 8 => TI (dvbDurationByteRepresentation (tI (tnth 1 t)))
+  | 9 => let bs := bytes_of_items (enc_dvb_time (tI (tnth 1 t))) in
+         TL [TB bs; tok_of_res TI (run_iter parse_dvb_time bs)]
+  | _ => TL []
+  end.
